@@ -1,0 +1,21 @@
+// SPDX-FileCopyrightText: 2026 The Pion community <https://pion.ly>
+// SPDX-License-Identifier: MIT
+
+package flight12
+
+import (
+	"github.com/pion/dtls/v3/pkg/protocol/extension"
+)
+
+// finalALPNSelection returns the protocol the final ServerHello selects, which
+// is the one the client adopts: a ServerHello hook may add, replace or remove it.
+func finalALPNSelection(responses []extension.Value) string {
+	selected := ""
+	for _, v := range responses {
+		if ext, ok := v.(*extension.ALPNSelection); ok {
+			selected = ext.Protocol
+		}
+	}
+
+	return selected
+}
